@@ -12,8 +12,8 @@ LEVEL = "exploration"
 TECHNIQUE = "Hypothesis-generated datasets and sampler histories; every random draw is intercepted and its parameters compared with an independently derived full conditional computed from the live state; exact affine check of the MVN routine"
 RULE = (
     "observed arity-2 datasets (1..5 samples, 2..7 treatments + control, 3..30 rows mixing combinations and single-agent rows, treatments seen only in the first, only "
-    "in the second or in both positions, samples/treatments of the experiment space without data), D in 1..4, 2..6 sampler steps under the default options; per step all "
-    "12 blocks are observed. Non-trivial = a checked draw for a coordinate with >=1 observation while some embedding is non-zero (from step 2 on); distinct = distinct "
+    "in the second or in both positions, samples/treatments of the experiment space without data), D in 1..4, 2..6 sampler steps under the default options, with "
+    "reset_model calls and a second batch of observations between steps (the histories sampling.sample and repeated training produce); per step all 12 blocks are observed. Non-trivial = a checked draw for a coordinate with >=1 observation while some embedding is non-zero (from step 2 on); distinct = distinct "
     "case JSON; per-block draw counts are in counters."
 )
 ASSUMPTIONS = [
@@ -43,6 +43,9 @@ def _case(draw):
         "extra_treatments": draw(st.integers(0, 2)),
         "D": draw(st.sampled_from([1, 2, 2, 3, 3, 4])),
         "steps": draw(st.integers(2, 6)),
+        # history between the steps: reset_model (as sampling.sample does before every chain) and a second batch of observations
+        "events": draw(st.lists(st.sampled_from(["none", "none", "none", "reset", "add"]), min_size=6, max_size=6)),
+        "first_batch": draw(st.integers(1, 30)),
         "seed": draw(st.integers(0, 2**31 - 1)),
     }
 
@@ -290,7 +293,12 @@ def check_case(case):
 
     space = ExperimentSpace(treatment_mapping=tm, sample_mapping=sm, control_treatment_name="ctl")
     model = scm.SparseDrugCombo(experiment_space=space, n_embedding_dimensions=D)
-    model.add_observations(screen)
+    n_rows = screen.size
+    events = list(case.get("events", []))
+    k = n_rows if "add" not in events[: case["steps"]] else max(1, min(n_rows - 1, case.get("first_batch", n_rows))) if n_rows > 1 else n_rows
+    first = np.arange(n_rows) < k
+    model.add_observations(screen.subset(first))
+    pending_second_batch = bool((~first).any())
     wm = attach(model, "wrapped_model")
     for name in BLOCKS + ["_reconstruct_Mu", "mcmc_step"]:
         attach(wm, name)
@@ -368,16 +376,25 @@ def check_case(case):
     try:
         with np.errstate(all="ignore"):
             for step in range(case["steps"]):
+                ev = events[step] if step < len(events) else "none"
+                if ev == "reset" and step > 0:
+                    model.reset_model()
+                    counts["resets"] += 1
+                elif ev == "add" and pending_second_batch:
+                    model.add_observations(screen.subset(~first))
+                    pending_second_batch = False
+                    counts["second_batches"] += 1
                 rec.order = []
                 model.step()
                 require(rec.order == BLOCKS, "step.block_order", lambda: "blocks visited %r, documented order %r" % (rec.order, BLOCKS))
                 theta = model.get_model_state()
                 s = G.State(wm)
                 if s.n:
-                    pred = np.asarray(theta.predict_conditional_mean(screen), dtype=float)
+                    seen = screen if not pending_second_batch else screen.subset(first)
+                    pred = np.asarray(theta.predict_conditional_mean(seen), dtype=float)
                     mu = G.fitted(s)
                     require(bool(np.all(np.abs(pred - mu) <= 1e-3 * (np.abs(mu) + 1.0 / np.sqrt(s.prec)) + 1e-4)), "export.predicts_fitted_values", lambda: "exported sample predicts %r on the training experiments, sampler's parameters imply %r" % (pred.tolist(), mu.tolist()))
-                    var = np.asarray(theta.predict_conditional_variance(screen), dtype=float)
+                    var = np.asarray(theta.predict_conditional_variance(seen), dtype=float)
                     require(bool(np.allclose(var, 1.0 / s.prec, rtol=1e-6)), "export.noise_precision", lambda: "exported variance %r, sampler precision %r" % (var.tolist()[:3], s.prec))
     finally:
         npr.normal, npr.gamma = o_normal, o_gamma
